@@ -396,6 +396,38 @@ pub fn edit_signed(signed: &mut Value, field: &str, scn: &Value, rng: &mut impl 
             signed["keys"][km.idstr("k3")] = pk;
             true
         }
+        // inner fields of a key-table entry (the entry's identifier stays: the described key is another one)
+        "key_entry_scheme" | "key_entry_public" | "key_entry_halgs" | "key_entry_type" if !is_link => {
+            let id = km.idstr("k1");
+            let e = &mut signed["keys"][&id];
+            if !e.is_object() {
+                return false;
+            }
+            match field {
+                "key_entry_scheme" => {
+                    let cur = e["scheme"].as_str().unwrap_or("").to_string();
+                    e["scheme"] = json!(if cur == "rsassa-pss-sha256" { "rsassa-pss-sha512" } else if cur == "rsassa-pss-sha512" { "rsassa-pss-sha256" } else if cur == "ed25519" { "ecdsa-sha2-nistp256" } else { "ed25519" });
+                }
+                "key_entry_public" => {
+                    let cur = e["keyval"]["public"].as_str().unwrap_or("").to_string();
+                    // change one character in the middle of the material, staying inside its alphabet
+                    let i = cur.len() / 2;
+                    let c = cur.as_bytes()[i] as char;
+                    let r = if c == '0' { '1' } else if c.is_ascii_digit() { '0' } else if c == 'a' { 'b' } else if c.is_ascii_lowercase() { 'a' } else if c == 'A' { 'B' } else if c.is_ascii_uppercase() { 'A' } else { return false };
+                    e["keyval"]["public"] = json!(format!("{}{}{}", &cur[..i], r, &cur[i + 1..]));
+                }
+                "key_entry_halgs" => {
+                    if e.as_object_mut().unwrap().remove("keyid_hash_algorithms").is_none() {
+                        e["keyid_hash_algorithms"] = json!(["sha256", "sha512"]);
+                    }
+                }
+                _ => {
+                    let cur = e["keytype"].as_str().unwrap_or("").to_string();
+                    e["keytype"] = json!(if cur == "ed25519" { "ecdsa" } else { "ed25519" });
+                }
+            }
+            true
+        }
         "keys_remove" if !is_link => {
             let id = km.idstr("k2");
             signed["keys"].as_object_mut().unwrap().remove(&id);
